@@ -137,7 +137,7 @@ op("val-sensor-symbols-allow-control", ["C14"], COMMON, r"allowed_symbols = set\
 op("val-ui-drop-coverage", ["C14"], UI, r"for k in state:\n\s*try:\n\s*assert k in state_model\n\s*except AssertionError:\n.*?\n\s*raise\n", "")
 op("val-ui-size-only-ge", ["C14"], UI, r"if not len\(state_model\) == len\(state\):", "if len(state_model) < len(state):")
 op("val-py-noise-count-dropped", ["C14"], PY, r"        assert len\(process_noise\) == self\.control_size\n", "")
-op("val-py-sensor-keys-dropped", ["C14"], PY, r"        assert set\(sensor_models\.keys\(\)\) == set\(sensor_noises\.keys\(\)\)\n", "")
+op("val-py-sensor-keys-dropped", ["C14"], PY, r"        assert set\(sensor_models\.keys\(\)\) == set\(sensor_noises\.keys\(\)\)\n        assert isinstance\(sensor_noises, dict\)\n        assert len\(sensor_noises\) == len\(sensor_models\)\n", "")
 op("val-cpp-negative-dropped", ["C14"], CPP, r"        for key, value in process_noise\.items\(\):\n\s*if value < 0\.0:\n\s*raise ModelConstructionError\(\n[^\n]*\n\s*\)\n", "")
 op("val-cpp-validate-after-write", ["C14"], CPP, r"(    common\.model_validation\(\n        state_model,\n        process_noise,\n        sensor_models,\n        extra_validation=config\.extra_validation,\n        calibration_map=calibration_map,\n    \)\n\n)(    args = _compile_argparse\(\).*?)(    return _compile_impl\(args, generator=generator\)\n)$", r"\2    result = _compile_impl(args, generator=generator)\n\1    return result\n")
 # ---------------------------------------------------------------- determinism (C15)
